@@ -10,7 +10,7 @@ use tracing_core::dispatch::{self, Dispatch};
 use tracing_core::span::{Attributes, Current, Id, Record};
 use tracing_core::{Collect, Event, Metadata};
 use vcs::{Cs, Emitted, Fresh, Kind};
-use vlib::rec::{FilterCollector, Got, Shared, Spec};
+use vlib::rec::{FilterCollector, Got, Spec};
 use vlib::run::{self, Finish};
 use vlib::{chaos, json, Args, ChildSpec, Map, Mode, Out, Rng, Value};
 
@@ -389,8 +389,8 @@ fn scenario(
         let a = Arc::new(FilterCollector::new(*next_cid, spec, true));
         *next_cid += 1;
         all.lock().unwrap().push(a.clone());
-        pre.push(Arc::new(Mutex::new(Some(Dispatch::new(Shared(a.clone()))))));
-        desc.push(format!("pre c{} = {}", a.cid, spec.code()));
+        pre.push(Arc::new(Mutex::new(Some(vlib::rec::dispatch_of(a.clone(), a.cid)))));
+        desc.push(format!("pre c{} = {} as {}", a.cid, spec.code(), vlib::rec::DISPATCH_HOW[(a.cid % 4) as usize]));
         pre_arcs.push(a);
     }
     // a fraction of the callsites is hit once before the race (cached interest exists)
@@ -492,7 +492,7 @@ fn scenario(
                         let d = if evil {
                             Dispatch::new(Evil { inner: a.clone(), cs: evil_cs.unwrap(), armed: evil_armed.clone(), fired: evil_fired.clone() })
                         } else {
-                            Dispatch::new(Shared(a.clone()))
+                            vlib::rec::dispatch_of(a.clone(), cid)
                         };
                         if evil {
                             // arm after creation: the next callsite offered to it (a first hit by
@@ -532,7 +532,7 @@ fn scenario(
                         let cid = cidctr.fetch_add(1, Ordering::SeqCst);
                         let a = Arc::new(FilterCollector::new(cid, spec, true));
                         all.lock().unwrap().push(a.clone());
-                        let d = Dispatch::new(Shared(a.clone()));
+                        let d = vlib::rec::dispatch_of(a.clone(), cid);
                         let (st, ok) = vlib::stamps::timed(|| dispatch::set_global_default(d.clone()).is_ok());
                         if ok {
                             *global_arc.lock().unwrap() = Some((a, d));
